@@ -17,16 +17,31 @@ pub fn cases(t: Tier) -> u64 {
 
 /// Work bound per solve, in database callbacks.
 pub const B: u64 = 300_000;
+fn bound() -> u64 {
+    std::env::var("VERIF_C09_BOUND").ok().and_then(|s| s.parse().ok()).unwrap_or(B)
+}
 
 pub fn run(ctx: &Ctx, out: &mut CaseOut) {
     let mut r = Rng::for_case(ctx.prop, ctx.seed, ctx.k);
-    let w = workload(&mut r, ctx.k, 2, 8);
+    // every tenth case: the lifetime fragment (region constraints in answers; text only, no oracle needed here)
+    let w = if ctx.k % 10 == 9 { crate::props::workload::lifetime_work(&mut r, 8) } else { workload(&mut r, ctx.k, 2, 8) };
     let configs: Vec<SolverChoice> = vec![
         slg(),
         rec(),
         SolverChoice::slg(4, None),
         SolverChoice::Recursive { overflow_depth: 100, caching_enabled: false, max_size: 8 },
     ];
+    // auto fragment: also every struct x auto trait (dense field cycles are where SLG's delayed answers multiply, F32)
+    let mut w = w;
+    if w.fragment == "auto" {
+        let mut extra = vec![];
+        for tr in w.prog.traits.iter().filter(|t| t.auto) {
+            for st in w.prog.structs.iter().filter(|s| s.nparams == 0).take(6) {
+                extra.push((format!("{}: {}", st.name, tr.name), vec![], None));
+            }
+        }
+        w.goals.extend(extra);
+    }
     out.sample = Some(J::obj().set("fragment", w.fragment).set("program", w.text.as_str()).set("goal", w.goals.get(0).map(|g| g.0.clone()).unwrap_or_default()));
     for (ci, choice) in configs.iter().enumerate() {
         if ci >= 2 && ctx.k % 2 == 1 {
@@ -51,9 +66,24 @@ pub fn run(ctx: &Ctx, out: &mut CaseOut) {
                 // the recursive solver documents solve_multiple as unimplemented
                 let entry = (gi + ctx.k as usize) % if solver_name(choice) == "slg" { 3 } else { 2 };
                 let db = FaultDb::new(&*l.program, solver_name(choice));
-                db.budget.set(B);
-                db.time_limit.set(std::time::Duration::from_secs(40));
-                let mut s = choice.into_solver();
+                // database callbacks of the recursive solver are about a microsecond each, and with caching disabled it
+                // legitimately repeats sub-searches (a truncated polymorphic recursion was measured at 4.2*10^5): its bound is
+                // larger so that "bounded but repetitive" is not mistaken for divergence
+                let work_bound = if solver_name(choice) == "recursive" { bound() * 20 } else { bound() };
+                db.budget.set(work_bound);
+                // SLG blow-ups (F16, F32) make only a few hundred callbacks per second; they are recognised by what the forest
+                // looks like (hook H4), not by the callback count, so a shorter guard suffices there
+                db.time_limit.set(std::time::Duration::from_secs(if solver_name(choice) == "slg" { 12 } else { 40 }));
+                // SLG through the concrete type so that hook H4 can show what the forest looked like when the work bound hit
+                let mut slg_s = match choice {
+                    SolverChoice::SLG { max_size, expected_answers } => Some(chalk_engine::solve::SLGSolver::<I>::new(*max_size, *expected_answers)),
+                    _ => None,
+                };
+                let mut other = choice.into_solver();
+                let s: &mut dyn chalk_solve::Solver<I> = match slg_s.as_mut() {
+                    Some(x) => x,
+                    None => &mut *other,
+                };
                 let outcome = match entry {
                     0 => solve(&mut *s, &db, &p.goal),
                     1 => solve_limited(&mut *s, &db, &p.goal, &|| true),
@@ -94,17 +124,30 @@ pub fn run(ctx: &Ctx, out: &mut CaseOut) {
                         let sig = panic_signature(solver_name(choice), m, mgoal.as_ref(), Some(&w.prog));
                         out.violation(sig.as_deref(), format!("{} {} panicked: {} at {}", solver_desc(choice), entry_name, crate::case::truncate(m, 160), last_panic_loc()), d().set("panic", m.as_str()));
                     }
-                    Outcome::Budget if db.timed_out.get() && calls < 20_000 => {
-                        // the wall-clock guard fired with little logical work done: a loaded machine, not a verdict
-                        out.inconclusive("wall-clock guard fired below the work threshold");
-                    }
                     Outcome::Budget => {
+                        // F32's root-cause condition (hook H4): one table holds several answers that all still carry delayed
+                        // subgoals — for a table goal without unknowns these can only differ in what they are conditional on
+                        let multiplied = slg_s.as_mut().map_or(false, |x| x.verif_tables().iter().any(|t| t.answers_with_delayed_subgoals >= 4));
+                        if db.timed_out.get() && calls < 20_000 && !flag && !multiplied {
+                            // the wall-clock guard fired with little logical work done and none of the known blow-up conditions
+                            // is visible: a loaded machine, not a verdict
+                            out.inconclusive("wall-clock guard fired below the work threshold");
+                            continue;
+                        }
                         let sig = if flag {
                             Some(if solver_name(choice) == "slg" { "slg:coinductive-nonground:blowup" } else { "recursive:coinductive-nonground:divergence" })
+                        } else if multiplied {
+                            Some("slg:coinductive-delayed-answers-multiply")
                         } else {
                             None
                         };
-                        out.violation(sig, format!("{} {} did not return within the work bound ({} database callbacks made, bound {}; 40 s guard fired: {})", solver_desc(choice), entry_name, calls, B, db.timed_out.get()), d());
+                        let known_blowup = sig.is_some();
+                        out.violation(sig, format!("{} {} did not return within the work bound ({} database callbacks made, bound {}; wall-clock guard fired: {})", solver_desc(choice), entry_name, calls, work_bound, db.timed_out.get()), d());
+                        if known_blowup {
+                            // every further blow-up of the same kind costs the full guard time; the class has been observed
+                            out.count("remaining-goals-of-this-configuration-skipped-after-a-known-blow-up");
+                            break;
+                        }
                     }
                     Outcome::Injected => {}
                 }
